@@ -43,6 +43,13 @@ func init() {
 				treeRejectionsRule(P, R, "C13.e", "prove", "the proving call tree")
 				treeRejectionsRule(P, R, "C13.e", "show", "the verification call tree")
 			}},
+		Rule{ID: "C13.f", Explain: "package-level big.Int constants (bigONE, bigZERO, two, ...) are only read: never the receiver of a mutating method, never returned to a caller, never stored into a structure - an escaped constant is modified by its new owner's next in-place operation and corrupts every later computation of the process.",
+			Run: func(P *Program, R *Report) { sharedConstantsRule(P, R, "C13.f") }},
+		Rule{ID: "C13.g", Explain: "the verifier's descriptor limits are the documented ones and not tighter: ExtractStructure refuses exactly K == nil, Ld > Lm, a wrong number of squares, K.BitLen() > Lm + IntSize (the bound is compared with factor*m, three-square rescaling included), A != 4 for three squares, a bad sign (same rule as C12.c); the response size limits are the specified terms (same rule as C12.d).",
+			Run: func(P *Program, R *Report) {
+				extractLimitsRuleFor(P, R, "C13.g")
+				rangeSizesRule(P, R, "C13.g")
+			}},
 		Rule{ID: "C13.d", Explain: "CreateDisclosureProofBuilder refuses range statements on disclosed attributes and files every accepted statement's structure under its attribute index; Commit commits every filed structure with the attribute and randomiser of that index.",
 			Run: func(P *Program, R *Report) { statementFilingRule(P, R) }},
 	)
